@@ -205,4 +205,51 @@ theorem original_panics_nil_ptr :
     (staticResetObs LibCfg.original { kind := .int, isPtr := true, v := .nilptr }).tag = "panic" := by decide
 end NoPanic
 
+/-! Compare on the IEEE special values. The value model has finite fixed-point floats; NaN and the infinities
+exist for Compare only (`FClass`, `ieeeCmp`, XF records of the run). -/
+section SpecialFloats
+
+/-- On finite values `ieeeCmp` is the comparison the main model (`staticCmpSix`) makes. -/
+theorem special_fin_agrees (op : Op) (a b : Int) :
+    ieeeCmp op (.fin a) (.fin b) = staticCmpSix op (.float a) (.float b) := by
+  simp only [ieeeCmp, staticCmpSix, staticCmpSix.nativeCmpRaw, FClass.eq, FClass.lt, valEq, valLt]
+  repeat (split <;> try rfl)
+
+/-- Native comparison with a NaN on either side: only `!=` holds. -/
+theorem special_nan_left (op : Op) (x : FClass) : ieeeCmp op .nan x = (op == 2) := by
+  have h : ∀ x, ieeeCmp op .nan x = (!decide (op = 1) && decide (op = 2)) := by
+    intro x; cases x <;> simp [ieeeCmp, FClass.eq, FClass.lt]
+  rw [h]
+  by_cases h2 : op = 2
+  · subst h2; decide
+  · simp [h2]
+
+theorem special_nan_right (op : Op) (x : FClass) : ieeeCmp op x .nan = (op == 2) := by
+  have h : ∀ x, ieeeCmp op x .nan = (!decide (op = 1) && decide (op = 2)) := by
+    intro x; cases x <;> simp [ieeeCmp, FClass.eq, FClass.lt]
+  rw [h]
+  by_cases h2 : op = 2
+  · subst h2; decide
+  · simp [h2]
+
+/-- The infinities bound every finite value, strictly. -/
+theorem special_inf_order (a : Int) :
+    ieeeCmp 5 .ninf (.fin a) = true ∧ ieeeCmp 5 (.fin a) .pinf = true ∧ ieeeCmp 5 .ninf .pinf = true ∧
+    ieeeCmp 1 .pinf .pinf = true ∧ ieeeCmp 1 .ninf .ninf = true ∧ ieeeCmp 1 .ninf .pinf = false := by
+  simp [ieeeCmp, FClass.eq, FClass.lt]
+
+/-- `>=` is `>` or `==`, `<=` is `<` or `==`, `!=` is the negation of `==` — on every pair, NaN included
+(where `>=` and `<=` are both false although `!=` is true). -/
+theorem special_operators (l r : FClass) :
+    ieeeCmp 4 l r = (ieeeCmp 3 l r || ieeeCmp 1 l r) ∧ ieeeCmp 6 l r = (ieeeCmp 5 l r || ieeeCmp 1 l r) ∧
+    ieeeCmp 2 l r = !ieeeCmp 1 l r ∧ ieeeCmp 3 l r = ieeeCmp 5 r l := by
+  simp [ieeeCmp]
+
+/-- An unparsable (or out-of-range) operand leaves the result alone. -/
+theorem special_unparsable (op : Op) (l : FClass) : staticCmpSpecial op l none = .untouched := rfl
+
+example : ieeeCmp 5 .nan (.fin 1048576) = false ∧ ieeeCmp 1 .nan .nan = false ∧ ieeeCmp 2 .nan .nan = true ∧
+    ieeeCmp 3 (.fin 1048576) .nan = false := by decide
+end SpecialFloats
+
 end Inspector.C16
